@@ -279,11 +279,11 @@ def report_regions(chk, regions, tag=""):
                 expl = "the callee stores to a global variable from every thread"
             elif kind == "call":
                 construct = "output argument of %s -> %s" % (first.callee, desc)
-                expl = ("the callee %s writes through this argument, and the address it writes does not "
-                        "depend on any thread-partitioned argument" % first.callee)
+                expl = ("the callee %s writes through this argument, and %s" % (
+                    first.callee, first.why or "the address it writes does not depend on any thread-partitioned argument"))
             else:
                 construct = "unpartitioned store to %s" % desc
-                expl = "the address does not depend on a worksharing induction variable or on the thread id"
+                expl = first.why or "the address does not depend on a worksharing induction variable or on the thread id"
             chk.violation(
                 "shared-store", rel, r.func.name, construct, first.line,
                 "parallel region at line %d%s (%s): %s (through `%s`) target shared memory (%s); %s, the statement is not inside "
@@ -646,6 +646,14 @@ def mutants(tree):
                     expect="block-cover",
                     fn=_in_func(FS, "SDMXcontract_ao_to_bas_grid", "const int blksize = (ngrids + nthread - 1) / nthread;",
                                 "const int blksize = ngrids / nthread;")))
+    m.append(Mutant("collapse(2) added to a parallel for whose inner loop accumulates into out[i] (evaluate_se_kernel)",
+                    MU, expect="shared-store", old="#pragma omp parallel for\n", new="#pragma omp parallel for collapse(2)\n"))
+    m.append(Mutant("store under collapse(2) loses its dependence on the second collapsed variable (parallel_mul_add_d)",
+                    PB, expect="shared-store", old="c[i * dim2 + j] += a[i * dim2 + j] * b[j];",
+                    new="c[i * dim2] += a[i * dim2 + j] * b[j];"))
+    m.append(Mutant("store under collapse(3) loses its dependence on the middle collapsed variable (pbc_tools.c)",
+                    PB, expect="shared-store", old="xshifted[fftid * xyz_size + xid * yz_size + zid] = 0.0;",
+                    new="xshifted[fftid * xyz_size + zid] = 0.0;"))
     m.append(Mutant("callback run by the parallel driver stores to a global (GTOcontract_flapl0)", FL,
                     expect="callback-global",
                     fn=_in_func(FL, "GTOcontract_flapl0", "    double *my_spline = SPLINE + l * 4 * SPLINE_SIZE;\n",
